@@ -305,8 +305,8 @@ def mutants(mb):
     mb.add_text("merge-into-truthy", "apischema/constraints.py", "            if attr is not None:\n                alias = metadata.alias", "            if attr:\n                alias = metadata.alias", "C01.R6", "merge_into")
     counter_mutants(mb, "C01.R5")
     mb.add_text("list-elt-unconverted", M, "                values[i] = self.value_method.deserialize(elt)", "                values[i] = elt", "C01.R7", "ListMethod.value_method")
-    mb.add_text("mapping-key-unconverted", M, "                items[self.key_method.deserialize(key)] = self.value_method.deserialize(", "                items[key] = self.value_method.deserialize(", "C01.R7", "MappingMethod.key_method")
-    mb.add_text("mapping-value-gets-key", M, "                items[self.key_method.deserialize(key)] = self.value_method.deserialize(\n                    value\n", "                items[self.key_method.deserialize(key)] = self.value_method.deserialize(\n                    key\n", "C01.R7", "MappingMethod.value_method:part")
+    mb.add_text("mapping-key-unconverted", M, "                new_key = self.key_method.deserialize(key)\n", "                new_key = key\n", "C01.R7", "MappingMethod.key_method")
+    mb.add_text("mapping-value-gets-key", M, "                items[new_key] = self.value_method.deserialize(value)\n", "                items[new_key] = self.value_method.deserialize(key)\n", "C01.R7", "MappingMethod.value_method:part")
     mb.add_text("tuple-elt-index", M, "                elts[i] = elt_method.deserialize(data[i])", "                elts[i] = elt_method.deserialize(i)", "C01.R7", "TupleMethod.elt_methods:arg")
     mb.add_text("additional-unconverted", M, "                    ] = self.additional_field.method.deserialize(additional)", "                    ] = additional", "C01.R7", "ObjectMethod.additional_field")
     mb.add_text("conversion-result-unused", M, "        value = self.method.deserialize(data)\n", "        value = data\n", "C01.R7", "ConversionWithValueErrorMethod")
